@@ -733,9 +733,9 @@ impl<'arena> PrettyFormatter<'arena> {
                 BoundaryLayout::hanging("", self.indent()),
                 bindee.document.clone(),
             ));
-        // A blank line between the type and the bindee belongs before the
-        // separator, so it excludes the attached form.
-        let attachable = !matches!(intent.resolve(self.arena), Some(BreakIntent::BlankLine));
+        // A blank line that the layout policy keeps between the type and the
+        // bindee belongs before the separator, so it excludes the attached form.
+        let attachable = !self.preserves_blank_line(intent.resolve(self.arena));
         let attached = if attachable {
             ty.document
                 .clone()
